@@ -15,7 +15,7 @@ Proof. intros Hc. apply checker_sound. now apply model_spec_ok. Qed.
 (* ---- (1) only what came through TLS is used after the switch *)
 Theorem in_tls_only k pre post :
   (forall p h, trace k = pre ++ EvHs p h :: post ->
-     p = 0 /\ ~ hs_done (since_conn pre) /\ ~ hs_failed (since_conn pre)) /\
+     ~ hs_done (since_conn pre) /\ ~ hs_failed (since_conn pre)) /\
   (forall t it lft, trace k = pre ++ EvR t it lft :: post ->
      (t = true <-> hs_done (since_conn pre)) /\
      (forall l, it = RLine l -> t = true ->
@@ -101,8 +101,8 @@ Definition w_in_tls : bytes := [50; 53; 48; 32; 97; 13; 10; 50; 50; 49; 32; 98; 
 (** MX 0 closes the connection at once; MX 1 has a DANE-EE record and a certificate that does not verify (65) *)
 Definition witness_wrong_host : tcase :=
   mkCase false
-    [ mkConn true false true false [] 0 0 [] [] [];
-      mkConn true false true false [(3%N, 1%Z)] 0 65 [w_banner; w_ehlo_tls; w_go] [] [w_in_tls] ].
+    [ mkConn true false true [] 0 0 [] [] [];
+      mkConn true false true [(3%N, 1%Z)] 0 65 [w_banner; w_ehlo_tls; w_go] [] [w_in_tls] ].
 
 Theorem wrong_host_refuted : ~ (forall k, C18_holds k).
 Proof.
